@@ -466,6 +466,6 @@ def _dispatch(sh):
 
 def replay(rec):
     print(json.dumps(rec, indent=1)[:2000])
-    ctx = core.Ctx('C16', 'quick', 0)
+    ctx = core.Ctx('C16', rec.get('tier', 'quick'), 0)
     run(ctx)
     return rec['key'] not in ctx._viol
